@@ -138,6 +138,9 @@ def write_xlsx_with_results(path, cells, results, sheet='S', arrays=None,
                     t, txt = '', repr(v)
                 elif isinstance(v, str) and v.startswith('#'):
                     t, txt = ' t="e"', v
+                elif v == '':
+                    # what Excel writes for a formula whose result is the empty text
+                    return f'<c r="{addr}"{rest} t="str">{f}<v></v></c>'
                 else:
                     t, txt = ' t="str"', (str(v).replace('&', '&amp;')
                                           .replace('<', '&lt;').replace('>', '&gt;'))
